@@ -36,6 +36,7 @@ structure Cmd where
   name : String
   seq  : Int
   key  : String
+  attr : String := key     -- which attribute of the entry the line sets (`set pfs`, `set peer`, …): one value per attribute on the device
   body : List String := []
   refs : List String := []
   peer : Option Peer := none
